@@ -1,10 +1,1149 @@
-//! C20 — stub: property not yet claimed.
+//! C20 — rich error details round-trip through a status.
+//!
+//! Cases (one line each):
+//!   vec <code> <msg> <b0|b1> <nmeta> (<k> <v>)* <n> <detail>*      Status::with_error_details_vec[_and_metadata]
+//!   set <code> <msg> <b0|b1> <nmeta> (<k> <v>)* <slot>*10          Status::with_error_details[_and_metadata]
+//!   raw <code> <msg> <bytes>                                        Status::with_details (arbitrary details bytes)
+//! detail tokens: RI - | RI <secs> <nanos> | RN <secs> <nanos> (through RetryInfo::new) |
+//!   DI <n> <s>* <detail> | QF <n> (<subj> <desc>)* | EI <reason> <domain> <n> (<k> <v>)* |
+//!   PF <n> (<type> <subj> <desc>)* | BR <n> (<field> <desc>)* | RQ <id> <data> |
+//!   RS <type> <name> <owner> <desc> | HP <n> (<desc> <url>)* | LM <locale> <msg>;  slot = `-` | detail.
+//! Every case: build the status, `Status::add_header` into a HeaderMap, `Status::from_header_map`
+//! back, then observe on the recovered status
+//!   T <code> <msg> <details bytes> M <n> (<k> <v>)*            outer status after the header trip
+//!   E ok <code> <msg> <ndetails> | E err                          pb::Status::decode(details)
+//!   V ok <n> <detail>* | V err                                    check_error_details_vec
+//!   S ok <slot>*10 | S err                                        check_error_details
+//!   G <slot>*10                                                   the ten get_details_* getters
+//!   D <n> <k>                                                     get_error_details_vec().len(), #present in get_error_details()
 use crate::common::*;
+use http::HeaderMap;
+use prost::Message;
+use std::collections::HashMap;
+use std::time::Duration;
+use tonic::metadata::{KeyAndValueRef, MetadataKey, MetadataMap, MetadataValue};
+use tonic::{Code, Status};
+use tonic_types::{
+    pb, BadRequest, DebugInfo, ErrorDetail, ErrorDetails, ErrorInfo, FieldViolation, Help, HelpLink,
+    LocalizedMessage, PreconditionFailure, PreconditionViolation, QuotaFailure, QuotaViolation,
+    RequestInfo, ResourceInfo, RetryInfo, StatusExt,
+};
 
-pub fn generate(_tier: &str, _rng: &mut Rng) -> Vec<String> {
-    Vec::new()
+// ---------------------------------------------------------------------------------------------
+// token cursor
+
+struct Cur<'a> {
+    t: Vec<&'a str>,
+    i: usize,
 }
 
-pub fn execute(_case: &str) -> String {
-    "unclaimed".into()
+impl<'a> Cur<'a> {
+    fn new(s: &'a str) -> Self {
+        Cur { t: s.split(' ').filter(|x| !x.is_empty()).collect(), i: 0 }
+    }
+    fn next(&mut self) -> Option<&'a str> {
+        let r = self.t.get(self.i).copied();
+        self.i += 1;
+        r
+    }
+    fn peek(&self) -> Option<&'a str> {
+        self.t.get(self.i).copied()
+    }
+    fn num(&mut self) -> Option<u64> {
+        self.next()?.parse().ok()
+    }
+    fn string(&mut self) -> Option<String> {
+        String::from_utf8(unhex(self.next()?)?).ok()
+    }
+    fn bytes(&mut self) -> Option<Vec<u8>> {
+        unhex(self.next()?)
+    }
+    fn done(&self) -> bool {
+        self.i >= self.t.len()
+    }
+}
+
+fn hs(s: &str) -> String {
+    hex(s.as_bytes())
+}
+
+fn parse_detail(c: &mut Cur) -> Option<ErrorDetail> {
+    let kind = c.next()?;
+    Some(match kind {
+        "RI" | "RN" => {
+            if c.peek()? == "-" {
+                c.next();
+                if kind == "RN" {
+                    RetryInfo::new(None).into()
+                } else {
+                    RetryInfo { retry_delay: None }.into()
+                }
+            } else {
+                let secs = c.num()?;
+                let nanos = c.num()?;
+                if nanos >= 1_000_000_000 {
+                    return None;
+                }
+                let d = Duration::new(secs, nanos as u32);
+                if kind == "RN" {
+                    RetryInfo::new(Some(d)).into()
+                } else {
+                    RetryInfo { retry_delay: Some(d) }.into()
+                }
+            }
+        }
+        "DI" => {
+            let n = c.num()?;
+            let mut st = Vec::new();
+            for _ in 0..n {
+                st.push(c.string()?);
+            }
+            DebugInfo::new(st, c.string()?).into()
+        }
+        "QF" => {
+            let n = c.num()?;
+            let mut v = Vec::new();
+            for _ in 0..n {
+                v.push(QuotaViolation::new(c.string()?, c.string()?));
+            }
+            QuotaFailure::new(v).into()
+        }
+        "EI" => {
+            let reason = c.string()?;
+            let domain = c.string()?;
+            let n = c.num()?;
+            let mut m = HashMap::new();
+            for _ in 0..n {
+                let k = c.string()?;
+                let v = c.string()?;
+                if m.insert(k, v).is_some() {
+                    return None; // keys of a case are distinct
+                }
+            }
+            ErrorInfo::new(reason, domain, m).into()
+        }
+        "PF" => {
+            let n = c.num()?;
+            let mut v = Vec::new();
+            for _ in 0..n {
+                v.push(PreconditionViolation::new(c.string()?, c.string()?, c.string()?));
+            }
+            PreconditionFailure::new(v).into()
+        }
+        "BR" => {
+            let n = c.num()?;
+            let mut v = Vec::new();
+            for _ in 0..n {
+                v.push(FieldViolation::new(c.string()?, c.string()?));
+            }
+            BadRequest::new(v).into()
+        }
+        "RQ" => RequestInfo::new(c.string()?, c.string()?).into(),
+        "RS" => ResourceInfo::new(c.string()?, c.string()?, c.string()?, c.string()?).into(),
+        "HP" => {
+            let n = c.num()?;
+            let mut v = Vec::new();
+            for _ in 0..n {
+                v.push(HelpLink::new(c.string()?, c.string()?));
+            }
+            Help::new(v).into()
+        }
+        "LM" => LocalizedMessage::new(c.string()?, c.string()?).into(),
+        _ => return None,
+    })
+}
+
+// ---------------------------------------------------------------------------------------------
+// canonical rendering of what came out
+
+fn r_retry(x: &RetryInfo) -> String {
+    match x.retry_delay {
+        None => "RI -".into(),
+        Some(d) => format!("RI {} {}", d.as_secs(), d.subsec_nanos()),
+    }
+}
+fn r_debug(x: &DebugInfo) -> String {
+    let mut s = format!("DI {}", x.stack_entries.len());
+    for e in &x.stack_entries {
+        s.push(' ');
+        s.push_str(&hs(e));
+    }
+    s.push(' ');
+    s.push_str(&hs(&x.detail));
+    s
+}
+fn r_quota(x: &QuotaFailure) -> String {
+    let mut s = format!("QF {}", x.violations.len());
+    for v in &x.violations {
+        s.push_str(&format!(" {} {}", hs(&v.subject), hs(&v.description)));
+    }
+    s
+}
+fn r_errinfo(x: &ErrorInfo) -> String {
+    let mut kv: Vec<(&String, &String)> = x.metadata.iter().collect();
+    kv.sort_by(|a, b| a.0.as_bytes().cmp(b.0.as_bytes()));
+    let mut s = format!("EI {} {} {}", hs(&x.reason), hs(&x.domain), kv.len());
+    for (k, v) in kv {
+        s.push_str(&format!(" {} {}", hs(k), hs(v)));
+    }
+    s
+}
+fn r_prec(x: &PreconditionFailure) -> String {
+    let mut s = format!("PF {}", x.violations.len());
+    for v in &x.violations {
+        s.push_str(&format!(" {} {} {}", hs(&v.r#type), hs(&v.subject), hs(&v.description)));
+    }
+    s
+}
+fn r_badreq(x: &BadRequest) -> String {
+    let mut s = format!("BR {}", x.field_violations.len());
+    for v in &x.field_violations {
+        s.push_str(&format!(" {} {}", hs(&v.field), hs(&v.description)));
+    }
+    s
+}
+fn r_reqinfo(x: &RequestInfo) -> String {
+    format!("RQ {} {}", hs(&x.request_id), hs(&x.serving_data))
+}
+fn r_resinfo(x: &ResourceInfo) -> String {
+    format!(
+        "RS {} {} {} {}",
+        hs(&x.resource_type),
+        hs(&x.resource_name),
+        hs(&x.owner),
+        hs(&x.description)
+    )
+}
+fn r_help(x: &Help) -> String {
+    let mut s = format!("HP {}", x.links.len());
+    for v in &x.links {
+        s.push_str(&format!(" {} {}", hs(&v.description), hs(&v.url)));
+    }
+    s
+}
+fn r_locmsg(x: &LocalizedMessage) -> String {
+    format!("LM {} {}", hs(&x.locale), hs(&x.message))
+}
+
+fn render_detail(d: &ErrorDetail) -> String {
+    match d {
+        ErrorDetail::RetryInfo(x) => r_retry(x),
+        ErrorDetail::DebugInfo(x) => r_debug(x),
+        ErrorDetail::QuotaFailure(x) => r_quota(x),
+        ErrorDetail::ErrorInfo(x) => r_errinfo(x),
+        ErrorDetail::PreconditionFailure(x) => r_prec(x),
+        ErrorDetail::BadRequest(x) => r_badreq(x),
+        ErrorDetail::RequestInfo(x) => r_reqinfo(x),
+        ErrorDetail::ResourceInfo(x) => r_resinfo(x),
+        ErrorDetail::Help(x) => r_help(x),
+        ErrorDetail::LocalizedMessage(x) => r_locmsg(x),
+        _ => "unknown-kind".into(),
+    }
+}
+
+fn slot<T>(o: Option<&T>, f: fn(&T) -> String) -> String {
+    match o {
+        None => "-".into(),
+        Some(x) => f(x),
+    }
+}
+
+fn render_set(d: &ErrorDetails) -> (String, usize) {
+    let slots = vec![
+        slot(d.retry_info(), r_retry),
+        slot(d.debug_info(), r_debug),
+        slot(d.quota_failure(), r_quota),
+        slot(d.error_info(), r_errinfo),
+        slot(d.precondition_failure(), r_prec),
+        slot(d.bad_request(), r_badreq),
+        slot(d.request_info(), r_reqinfo),
+        slot(d.resource_info(), r_resinfo),
+        slot(d.help(), r_help),
+        slot(d.localized_message(), r_locmsg),
+    ];
+    let present = slots.iter().filter(|s| *s != "-").count();
+    (slots.join(" "), present)
+}
+
+fn observe(st: Status) -> String {
+    let mut hm = HeaderMap::new();
+    if st.add_header(&mut hm).is_err() {
+        return "hdr-fail-add".into();
+    }
+    let st = match Status::from_header_map(&hm) {
+        Some(s) => s,
+        None => return "hdr-fail-parse".into(),
+    };
+    let mut out = format!("T {} {} {}", st.code() as i32, hs(st.message()), hex(st.details()));
+    let mut meta: Vec<(String, String)> = st
+        .metadata()
+        .iter()
+        .map(|kv| match kv {
+            KeyAndValueRef::Ascii(k, v) => (k.as_str().to_string(), hex(v.as_encoded_bytes())),
+            KeyAndValueRef::Binary(k, v) => (k.as_str().to_string(), hex(v.as_encoded_bytes())),
+        })
+        .collect();
+    meta.sort();
+    out.push_str(&format!(" M {}", meta.len()));
+    for (k, v) in meta {
+        out.push_str(&format!(" {} {}", hs(&k), v));
+    }
+    match pb::Status::decode(st.details()) {
+        Ok(p) => out.push_str(&format!(" E ok {} {} {}", p.code, hs(&p.message), p.details.len())),
+        Err(_) => out.push_str(" E err"),
+    }
+    match st.check_error_details_vec() {
+        Ok(v) => {
+            out.push_str(&format!(" V ok {}", v.len()));
+            for d in &v {
+                out.push(' ');
+                out.push_str(&render_detail(d));
+            }
+        }
+        Err(_) => out.push_str(" V err"),
+    }
+    match st.check_error_details() {
+        Ok(d) => {
+            out.push_str(" S ok ");
+            out.push_str(&render_set(&d).0);
+        }
+        Err(_) => out.push_str(" S err"),
+    }
+    let g = vec![
+        slot(st.get_details_retry_info().as_ref(), r_retry),
+        slot(st.get_details_debug_info().as_ref(), r_debug),
+        slot(st.get_details_quota_failure().as_ref(), r_quota),
+        slot(st.get_details_error_info().as_ref(), r_errinfo),
+        slot(st.get_details_precondition_failure().as_ref(), r_prec),
+        slot(st.get_details_bad_request().as_ref(), r_badreq),
+        slot(st.get_details_request_info().as_ref(), r_reqinfo),
+        slot(st.get_details_resource_info().as_ref(), r_resinfo),
+        slot(st.get_details_help().as_ref(), r_help),
+        slot(st.get_details_localized_message().as_ref(), r_locmsg),
+    ];
+    out.push_str(" G ");
+    out.push_str(&g.join(" "));
+    let nvec = st.get_error_details_vec().len();
+    let nset = render_set(&st.get_error_details()).1;
+    out.push_str(&format!(" D {} {}", nvec, nset));
+    out
+}
+
+fn parse_meta(c: &mut Cur) -> Option<MetadataMap> {
+    let n = c.num()?;
+    let mut m = MetadataMap::new();
+    for _ in 0..n {
+        let k = c.string()?;
+        let v = c.string()?;
+        let key: MetadataKey<tonic::metadata::Ascii> = MetadataKey::from_bytes(k.as_bytes()).ok()?;
+        let val: MetadataValue<tonic::metadata::Ascii> = MetadataValue::try_from(v.as_str()).ok()?;
+        m.append(key, val);
+    }
+    Some(m)
+}
+
+fn build_set(c: &mut Cur, style_add: bool) -> Option<ErrorDetails> {
+    let mut d = ErrorDetails::new();
+    for slot_ix in 0..10 {
+        if c.peek()? == "-" {
+            c.next();
+            continue;
+        }
+        let det = parse_detail(c)?;
+        match (slot_ix, det) {
+            (0, ErrorDetail::RetryInfo(x)) => {
+                d.set_retry_info(x.retry_delay);
+            }
+            (1, ErrorDetail::DebugInfo(x)) => {
+                d.set_debug_info(x.stack_entries, x.detail);
+            }
+            (2, ErrorDetail::QuotaFailure(x)) => {
+                if style_add && !x.violations.is_empty() {
+                    for v in x.violations {
+                        d.add_quota_failure_violation(v.subject, v.description);
+                    }
+                } else {
+                    d.set_quota_failure(x.violations);
+                }
+            }
+            (3, ErrorDetail::ErrorInfo(x)) => {
+                d.set_error_info(x.reason, x.domain, x.metadata);
+            }
+            (4, ErrorDetail::PreconditionFailure(x)) => {
+                if style_add && !x.violations.is_empty() {
+                    for v in x.violations {
+                        d.add_precondition_failure_violation(v.r#type, v.subject, v.description);
+                    }
+                } else {
+                    d.set_precondition_failure(x.violations);
+                }
+            }
+            (5, ErrorDetail::BadRequest(x)) => {
+                if style_add && !x.field_violations.is_empty() {
+                    for v in x.field_violations {
+                        d.add_bad_request_violation(v.field, v.description);
+                    }
+                } else {
+                    d.set_bad_request(x.field_violations);
+                }
+            }
+            (6, ErrorDetail::RequestInfo(x)) => {
+                d.set_request_info(x.request_id, x.serving_data);
+            }
+            (7, ErrorDetail::ResourceInfo(x)) => {
+                d.set_resource_info(x.resource_type, x.resource_name, x.owner, x.description);
+            }
+            (8, ErrorDetail::Help(x)) => {
+                if style_add && !x.links.is_empty() {
+                    for v in x.links {
+                        d.add_help_link(v.description, v.url);
+                    }
+                } else {
+                    d.set_help(x.links);
+                }
+            }
+            (9, ErrorDetail::LocalizedMessage(x)) => {
+                d.set_localized_message(x.locale, x.message);
+            }
+            _ => return None,
+        }
+    }
+    Some(d)
+}
+
+fn build_status(case: &str) -> Option<Status> {
+    let mut c = Cur::new(case);
+    let kind = c.next()?;
+    let code = Code::from_i32(c.num()? as i32);
+    let msg = c.string()?;
+    match kind {
+        "vec" => {
+            let _style = c.next()?;
+            let meta = parse_meta(&mut c)?;
+            let n = c.num()?;
+            let mut v = Vec::new();
+            for _ in 0..n {
+                v.push(parse_detail(&mut c)?);
+            }
+            if !c.done() {
+                return None;
+            }
+            Some(if meta.is_empty() {
+                Status::with_error_details_vec(code, msg, v)
+            } else {
+                Status::with_error_details_vec_and_metadata(code, msg, v, meta)
+            })
+        }
+        "set" => {
+            let style = c.next()?;
+            let meta = parse_meta(&mut c)?;
+            let d = build_set(&mut c, style == "b1")?;
+            if !c.done() {
+                return None;
+            }
+            Some(if meta.is_empty() {
+                Status::with_error_details(code, msg, d)
+            } else {
+                Status::with_error_details_and_metadata(code, msg, d, meta)
+            })
+        }
+        "raw" => {
+            let b = c.bytes()?;
+            if !c.done() {
+                return None;
+            }
+            Some(Status::with_details(code, msg, b.into()))
+        }
+        _ => None,
+    }
+}
+
+pub fn execute(case: &str) -> String {
+    match build_status(case) {
+        Some(st) => observe(st),
+        None => "bad-case".into(),
+    }
+}
+
+// ---------------------------------------------------------------------------------------------
+// generators
+
+const POOL: &[&str] = &[
+    "", "", "a", "field", "description", "TOS", "example.local", "en-US", "\u{0}", "\u{7f}", "\u{80}",
+    "\u{7ff}", "\u{800}", "\u{ffff}", "\u{10000}", "\u{10ffff}", "\u{d7ff}", "\u{e000}", "é", "€", "😀",
+    "a b\tc\n", "%41%", "=+/", "type.googleapis.com/google.rpc.Help", "clientip:<ip address>",
+    "\u{feff}x", "ÿ", "key", "k", "v",
+];
+
+fn gen_string(rng: &mut Rng) -> String {
+    match rng.below(48) {
+        0..=23 => (*rng.pick(POOL)).to_string(),
+        24..=31 => {
+            let n = rng.below(6) as usize;
+            (0..n).map(|_| (*rng.pick(POOL)).to_string()).collect::<Vec<_>>().join("")
+        }
+        32..=34 => {
+            // lengths around the 1→2 byte varint boundary
+            let n = rng.range(118, 136) as usize;
+            let mut s = String::new();
+            while s.len() < n {
+                if s.len() + 4 <= n && rng.chance(1, 8) {
+                    s.push('😀');
+                } else if s.len() + 2 <= n && rng.chance(1, 6) {
+                    s.push('é');
+                } else {
+                    s.push((b'a' + rng.below(26) as u8) as char);
+                }
+            }
+            s
+        }
+        35 => {
+            if rng.chance(1, 30) {
+                let n = rng.range(16376, 16392) as usize;
+                "z".repeat(n)
+            } else {
+                let n = rng.range(250, 262) as usize;
+                "y".repeat(n)
+            }
+        }
+        _ => {
+            let n = rng.below(10) as usize;
+            (0..n)
+                .map(|_| match rng.below(5) {
+                    0 => char::from_u32(rng.below(0x80) as u32).unwrap(),
+                    1 => char::from_u32(0x80 + rng.below(0x780) as u32).unwrap(),
+                    2 => char::from_u32(0x800 + rng.below(0xD000) as u32).unwrap(),
+                    3 => char::from_u32(0x10000 + rng.below(0x100000) as u32).unwrap(),
+                    _ => (b'a' + rng.below(26) as u8) as char,
+                })
+                .collect()
+        }
+    }
+}
+
+fn gs(rng: &mut Rng) -> String {
+    hs(&gen_string(rng))
+}
+
+fn gen_count(rng: &mut Rng) -> u64 {
+    match rng.below(10) {
+        0 | 1 => 0,
+        2..=5 => 1,
+        6 | 7 => 2,
+        8 => 3,
+        _ => rng.range(4, 9),
+    }
+}
+
+const SEC_EDGES: &[u64] = &[
+    0,
+    1,
+    59,
+    315_576_000_000 - 1,
+    315_576_000_000,
+    315_576_000_000 + 1,
+    i64::MAX as u64 - 1,
+    i64::MAX as u64,
+    i64::MAX as u64 + 1,
+    u64::MAX - 1,
+    u64::MAX,
+    127,
+    128,
+    16383,
+    16384,
+    u32::MAX as u64,
+    u32::MAX as u64 + 1,
+];
+const NANO_EDGES: &[u64] = &[0, 1, 127, 128, 999_999_998, 999_999_999, 500_000_000];
+
+fn gen_detail(kind: usize, rng: &mut Rng, via_new_only: bool) -> String {
+    match kind {
+        0 => {
+            if rng.chance(1, 6) {
+                return if via_new_only || rng.chance(1, 2) { "RN -".into() } else { "RI -".into() };
+            }
+            let secs = if rng.chance(2, 3) { *rng.pick(SEC_EDGES) } else { rng.next() >> rng.below(64) };
+            let nanos = if rng.chance(2, 3) { *rng.pick(NANO_EDGES) } else { rng.below(1_000_000_000) };
+            let tag = if via_new_only || rng.chance(1, 2) { "RN" } else { "RI" };
+            format!("{} {} {}", tag, secs, nanos)
+        }
+        1 => {
+            let n = gen_count(rng);
+            let mut s = format!("DI {}", n);
+            for _ in 0..n {
+                s.push_str(&format!(" {}", gs(rng)));
+            }
+            s.push_str(&format!(" {}", gs(rng)));
+            s
+        }
+        2 => {
+            let n = gen_count(rng);
+            let mut s = format!("QF {}", n);
+            for _ in 0..n {
+                s.push_str(&format!(" {} {}", gs(rng), gs(rng)));
+            }
+            s
+        }
+        3 => {
+            let n = gen_count(rng);
+            let mut keys: Vec<String> = Vec::new();
+            for _ in 0..n {
+                let k = gen_string(rng);
+                if !keys.contains(&k) {
+                    keys.push(k);
+                }
+            }
+            let mut s = format!("EI {} {} {}", gs(rng), gs(rng), keys.len());
+            for k in keys {
+                s.push_str(&format!(" {} {}", hs(&k), gs(rng)));
+            }
+            s
+        }
+        4 => {
+            let n = gen_count(rng);
+            let mut s = format!("PF {}", n);
+            for _ in 0..n {
+                s.push_str(&format!(" {} {} {}", gs(rng), gs(rng), gs(rng)));
+            }
+            s
+        }
+        5 => {
+            let n = gen_count(rng);
+            let mut s = format!("BR {}", n);
+            for _ in 0..n {
+                s.push_str(&format!(" {} {}", gs(rng), gs(rng)));
+            }
+            s
+        }
+        6 => format!("RQ {} {}", gs(rng), gs(rng)),
+        7 => format!("RS {} {} {} {}", gs(rng), gs(rng), gs(rng), gs(rng)),
+        8 => {
+            let n = gen_count(rng);
+            let mut s = format!("HP {}", n);
+            for _ in 0..n {
+                s.push_str(&format!(" {} {}", gs(rng), gs(rng)));
+            }
+            s
+        }
+        _ => format!("LM {} {}", gs(rng), gs(rng)),
+    }
+}
+
+fn gen_meta(rng: &mut Rng) -> String {
+    if rng.chance(2, 3) {
+        return "0".into();
+    }
+    let names = ["x-request-id", "x-trace", "a", "retry-pushback-ms", "zz-top"];
+    let n = rng.range(1, 3) as usize;
+    let start = rng.below(names.len() as u64) as usize;
+    let mut s = format!("{}", n);
+    for i in 0..n {
+        let k = names[(start + i) % names.len()];
+        let v: String = (0..rng.below(8)).map(|_| (b'!' + rng.below(90) as u8) as char).collect();
+        s.push_str(&format!(" {} {}", hs(k), hs(&v)));
+    }
+    s
+}
+
+fn gen_head(kind: &str, rng: &mut Rng) -> String {
+    let code = if rng.chance(1, 5) { *rng.pick(&[0u64, 1, 2, 16]) } else { rng.below(17) };
+    let msg = if rng.chance(1, 5) { String::new() } else { gen_string(rng) };
+    format!("{} {} {} b{} {}", kind, code, hs(&msg), rng.below(2), gen_meta(rng))
+}
+
+fn gen_vec_case(rng: &mut Rng) -> String {
+    let mut s = gen_head("vec", rng);
+    let n = match rng.below(10) {
+        0 => 0,
+        1..=3 => 1,
+        4 | 5 => 2,
+        6 | 7 => rng.range(3, 5),
+        8 => 10,
+        _ => rng.range(6, 14),
+    };
+    // repeated kinds and unusual orderings on purpose: a "first vs last of kind" or "sorted by
+    // kind" mutation is only visible then
+    let sticky = rng.below(10) as usize;
+    s.push_str(&format!(" {}", n));
+    for _ in 0..n {
+        let k = if rng.chance(1, 3) { sticky } else { rng.below(10) as usize };
+        s.push(' ');
+        s.push_str(&gen_detail(k, rng, false));
+    }
+    s
+}
+
+fn gen_set_case(rng: &mut Rng) -> String {
+    let mut s = gen_head("set", rng);
+    let mode = rng.below(6);
+    for k in 0..10 {
+        let present = match mode {
+            0 => true,
+            1 => false,
+            2 => k % 2 == 0,
+            _ => rng.chance(1, 2),
+        };
+        s.push(' ');
+        if present {
+            s.push_str(&gen_detail(k, rng, true));
+        } else {
+            s.push('-');
+        }
+    }
+    s
+}
+
+// --- a tiny protobuf wire writer used only to build hostile inputs --------------------------
+
+fn w_varint(mut v: u64, out: &mut Vec<u8>) {
+    loop {
+        if v < 0x80 {
+            out.push(v as u8);
+            return;
+        }
+        out.push((v as u8 & 0x7f) | 0x80);
+        v >>= 7;
+    }
+}
+fn w_key(tag: u32, wt: u8, out: &mut Vec<u8>) {
+    w_varint(((tag as u64) << 3) | wt as u64, out);
+}
+fn w_ld(tag: u32, payload: &[u8]) -> Vec<u8> {
+    let mut o = Vec::new();
+    w_key(tag, 2, &mut o);
+    w_varint(payload.len() as u64, &mut o);
+    o.extend_from_slice(payload);
+    o
+}
+fn w_vi(tag: u32, v: u64) -> Vec<u8> {
+    let mut o = Vec::new();
+    w_key(tag, 0, &mut o);
+    w_varint(v, &mut o);
+    o
+}
+fn w_any(url: &str, value: &[u8]) -> Vec<u8> {
+    let mut a = w_ld(1, url.as_bytes());
+    a.extend(w_ld(2, value));
+    a
+}
+fn w_status(code: u64, msg: &[u8], anys: &[Vec<u8>]) -> Vec<u8> {
+    let mut o = Vec::new();
+    if code != 0 {
+        o.extend(w_vi(1, code));
+    }
+    if !msg.is_empty() {
+        o.extend(w_ld(2, msg));
+    }
+    for a in anys {
+        o.extend(w_ld(3, a));
+    }
+    o
+}
+
+const URLS: [&str; 10] = [
+    "type.googleapis.com/google.rpc.RetryInfo",
+    "type.googleapis.com/google.rpc.DebugInfo",
+    "type.googleapis.com/google.rpc.QuotaFailure",
+    "type.googleapis.com/google.rpc.ErrorInfo",
+    "type.googleapis.com/google.rpc.PreconditionFailure",
+    "type.googleapis.com/google.rpc.BadRequest",
+    "type.googleapis.com/google.rpc.RequestInfo",
+    "type.googleapis.com/google.rpc.ResourceInfo",
+    "type.googleapis.com/google.rpc.Help",
+    "type.googleapis.com/google.rpc.LocalizedMessage",
+];
+
+fn raw_case(bytes: &[u8]) -> String {
+    format!("raw 3 {} {}", hs("m"), hex(bytes))
+}
+
+fn nested_groups(depth: usize, tag: u32) -> Vec<u8> {
+    let mut o = Vec::new();
+    for _ in 0..depth {
+        w_key(tag, 3, &mut o);
+    }
+    for _ in 0..depth {
+        w_key(tag, 4, &mut o);
+    }
+    o
+}
+
+fn duration_msg(secs: u64, nanos: u64) -> Vec<u8> {
+    let mut d = Vec::new();
+    if secs != 0 {
+        d.extend(w_vi(1, secs));
+    }
+    if nanos != 0 {
+        d.extend(w_vi(2, nanos));
+    }
+    d
+}
+
+/// Hand-written hostile inputs (decode side), also the witnesses of findings.
+fn corpus() -> Vec<String> {
+    let mut out = Vec::new();
+    let ri = URLS[0];
+    // witness: RetryInfo{retry_delay{seconds = i64::MIN}} — negation overflow inside
+    // prost_types' TryFrom<Duration> (debug builds) reached from tonic-types' From<pb::RetryInfo>
+    let min = w_ld(1, &duration_msg(1u64 << 63, 0));
+    out.push(raw_case(&w_status(3, b"m", &[w_any(ri, &min)])));
+    // the duration table of prost-types' normalize, through RetryInfo
+    let i64min = 1u64 << 63;
+    let secs: [u64; 14] = [
+        0, 1, u64::MAX, /* -1 */ i64min, i64min + 1, i64min + 2, i64::MAX as u64, i64::MAX as u64 - 1, 2,
+        u64::MAX - 1, 315_576_000_000, 315_576_000_001, (-315_576_000_000i64) as u64, 5,
+    ];
+    let nanos: [i64; 15] = [
+        0, 1, -1, 999_999_999, -999_999_999, 1_000_000_000, -1_000_000_000, 1_000_000_001, -1_000_000_001,
+        1_999_999_999, -1_999_999_999, 2_000_000_000, -2_000_000_000, i32::MAX as i64, i32::MIN as i64,
+    ];
+    for s in secs {
+        for n in nanos {
+            let v = w_ld(1, &duration_msg(s, n as u64));
+            out.push(raw_case(&w_status(3, b"m", &[w_any(ri, &v)])));
+        }
+    }
+    // nanos given as a 5-byte (truncated to i32) and as a 10-byte varint with high bits set
+    for n in [0x1_0000_0001u64, 0xffff_ffff_0000_0005, 0x8000_0000, 0xffff_ffff] {
+        let v = w_ld(1, &duration_msg(7, n));
+        out.push(raw_case(&w_status(3, b"m", &[w_any(ri, &v)])));
+    }
+    // retry_delay present twice: message fields merge
+    let mut twice = w_ld(1, &duration_msg(5, 0));
+    twice.extend(w_ld(1, &duration_msg(0, 7)));
+    out.push(raw_case(&w_status(3, b"m", &[w_any(ri, &twice)])));
+    out.push(raw_case(&w_status(3, b"m", &[w_any(ri, &w_ld(1, &[]))])));
+    out.push(raw_case(&w_status(3, b"m", &[w_any(ri, &[])])));
+    // map field of ErrorInfo: wrong wire types, missing key / value, duplicate keys, extra entry fields
+    let ei = URLS[3];
+    let entry = |k: &[u8], v: &[u8]| {
+        let mut e = w_ld(1, k);
+        e.extend(w_ld(2, v));
+        e
+    };
+    let mut dup = w_ld(3, &entry(b"k", b"1"));
+    dup.extend(w_ld(3, &entry(b"j", b"2")));
+    dup.extend(w_ld(3, &entry(b"k", b"3")));
+    out.push(raw_case(&w_status(3, b"m", &[w_any(ei, &dup)])));
+    out.push(raw_case(&w_status(3, b"m", &[w_any(ei, &w_ld(3, &[]))])));
+    out.push(raw_case(&w_status(3, b"m", &[w_any(ei, &w_ld(3, &w_ld(2, b"only-value")))])));
+    out.push(raw_case(&w_status(3, b"m", &[w_any(ei, &w_ld(3, &w_ld(1, b"only-key")))])));
+    out.push(raw_case(&w_status(3, b"m", &[w_any(ei, &[0x18, 0x00])]))); // field 3 as varint 0
+    out.push(raw_case(&w_status(3, b"m", &[w_any(ei, &[0x18, 0x03, 0x0a, 0x01, 0x41])])));
+    out.push(raw_case(&w_status(3, b"m", &[w_any(ei, &[0x1d, 0x00])]))); // field 3 as fixed32 key, then len 0
+    out.push(raw_case(&w_status(3, b"m", &[w_any(ei, &[0x1b, 0x00, 0x1c])]))); // group wire type on the map
+    let mut e3 = entry(b"k", b"v");
+    e3.extend(w_vi(3, 9));
+    e3.extend(w_ld(1, b"k2"));
+    out.push(raw_case(&w_status(3, b"m", &[w_any(ei, &w_ld(3, &e3))])));
+    out.push(raw_case(&w_status(3, b"m", &[w_any(ei, &w_ld(3, &w_vi(1, 5)))]))); // key with varint wire type
+    // non-UTF-8 strings at every level
+    out.push(raw_case(&w_status(3, &[0xff], &[])));
+    out.push(raw_case(&w_status(3, b"m", &[w_any("", &[])])));
+    out.push(raw_case(&w_status(3, b"m", &[w_ld(1, &[0xc0, 0x80])])));
+    for bad in [
+        &[0xc0u8, 0x80][..],
+        &[0xed, 0xa0, 0x80],
+        &[0xf4, 0x90, 0x80, 0x80],
+        &[0xe0, 0x9f, 0xbf],
+        &[0xf0, 0x8f, 0xbf, 0xbf],
+        &[0x80],
+        &[0xc2],
+        &[0xe2, 0x82],
+        &[0xf0, 0x9f, 0x98],
+        &[0xf5, 0x80, 0x80, 0x80],
+        &[0xc1, 0xbf],
+        &[0xef, 0xbf, 0xbf],
+        &[0xf4, 0x8f, 0xbf, 0xbf],
+        &[0xed, 0x9f, 0xbf],
+        &[0xee, 0x80, 0x80],
+    ] {
+        out.push(raw_case(&w_status(3, b"m", &[w_any(URLS[9], &w_ld(1, bad))])));
+        out.push(raw_case(&w_status(3, b"m", &[w_any(URLS[1], &w_ld(1, bad))])));
+        out.push(raw_case(&w_status(3, b"m", &[w_any(URLS[2], &w_ld(1, &w_ld(2, bad)))])));
+        out.push(raw_case(&w_status(3, b"m", &[w_any(ei, &w_ld(3, &entry(bad, b"v")))])));
+        out.push(raw_case(&w_status(3, bad, &[])));
+    }
+    // same kind several times, one of them corrupt: check_* fail, getters skip to the next good one
+    let good = w_ld(1, b"en");
+    let corrupt = vec![0x0a, 0x05, 0x41];
+    for order in [[0usize, 1, 0], [1, 0, 0], [0, 0, 1], [1, 1, 0]] {
+        let anys: Vec<Vec<u8>> =
+            order.iter().map(|i| w_any(URLS[9], if *i == 0 { &good } else { &corrupt })).collect();
+        out.push(raw_case(&w_status(3, b"m", &anys)));
+    }
+    // type_url near misses
+    for u in [
+        "type.googleapis.com/google.rpc.Help ",
+        "type.googleapis.com/google.rpc.help",
+        "/google.rpc.Help",
+        "google.rpc.Help",
+        "type.googleapis.com/google.rpc.Hel",
+        "type.googleapis.com/google.rpc.Helps",
+        "TYPE.GOOGLEAPIS.COM/google.rpc.Help",
+        "type.googleapis.com/google.rpc.Status",
+        "type.googleapis.com/google.protobuf.Duration",
+        "",
+    ] {
+        out.push(raw_case(&w_status(3, b"m", &[w_any(u, &[0xff, 0xff])])));
+        out.push(raw_case(&w_status(3, b"m", &[w_any(u, &w_ld(1, &w_ld(1, b"d")))])));
+    }
+    // payload of one kind under the url of another
+    for (i, u) in URLS.iter().enumerate() {
+        let other = w_ld(1, &w_ld(1, b"x"));
+        out.push(raw_case(&w_status(3, b"m", &[w_any(u, &other)])));
+        out.push(raw_case(&w_status(3, b"m", &[w_any(u, &w_vi(1, i as u64))])));
+        out.push(raw_case(&w_status(3, b"m", &[w_any(u, &w_ld(1, b"plain"))])));
+        out.push(raw_case(&w_status(3, b"m", &[w_any(u, &[0x0d, 1, 2, 3, 4])]))); // fixed32 on field 1
+        out.push(raw_case(&w_status(3, b"m", &[w_any(u, &[0x09, 1, 2, 3, 4, 5, 6, 7, 8])]))); // fixed64
+        out.push(raw_case(&w_status(3, b"m", &[w_any(u, &[0x2d, 1, 2, 3, 4, 0x31, 1, 2, 3, 4, 5, 6, 7, 8, 0x28, 0x07])])));
+    }
+    // groups as unknown fields: recursion limit 100 (top level), 99 inside an Any, …
+    for depth in [1usize, 2, 97, 98, 99, 100, 101, 102, 150] {
+        out.push(raw_case(&nested_groups(depth, 9)));
+        let mut st = nested_groups(depth, 9);
+        st.extend(w_status(3, b"m", &[w_any(URLS[9], &good)]));
+        out.push(raw_case(&st));
+        out.push(raw_case(&w_status(3, b"m", &[w_ld(3, &nested_groups(depth, 7))])));
+        out.push(raw_case(&w_status(3, b"m", &[w_any(URLS[9], &nested_groups(depth, 7))])));
+        out.push(raw_case(&w_status(3, b"m", &[w_any(URLS[2], &w_ld(1, &nested_groups(depth, 7)))])));
+        out.push(raw_case(&w_status(3, b"m", &[w_any(ei, &w_ld(3, &nested_groups(depth, 7)))])));
+    }
+    out.push(raw_case(&[0x4b, 0x54])); // group 9 closed by end-group 10
+    out.push(raw_case(&[0x4b, 0x08, 0x01, 0x4c]));
+    out.push(raw_case(&[0x4b, 0x0a, 0x02, 0x4c, 0x4c, 0x4c]));
+    out.push(raw_case(&[0x4c]));
+    out.push(raw_case(&[0x4b]));
+    out.push(raw_case(&[0x0b, 0x0c])); // group on the known field 1
+    // varints: 10-byte forms, overflow, over-long, truncated; keys: tag 0, > u32, wire types 6, 7
+    let ten_ok = [0xffu8, 0xff, 0xff, 0xff, 0xff, 0xff, 0xff, 0xff, 0xff, 0x01];
+    let ten_bad = [0xffu8, 0xff, 0xff, 0xff, 0xff, 0xff, 0xff, 0xff, 0xff, 0x02];
+    let eleven = [0x80u8, 0x80, 0x80, 0x80, 0x80, 0x80, 0x80, 0x80, 0x80, 0x80, 0x00];
+    let padded = [0x83u8, 0x80, 0x00];
+    for v in [&ten_ok[..], &ten_bad[..], &eleven[..], &padded[..], &[0x80][..], &[0xff, 0xff][..]] {
+        let mut b = vec![0x08];
+        b.extend_from_slice(v);
+        out.push(raw_case(&b));
+        let mut b = vec![0x08];
+        b.extend_from_slice(v);
+        b.extend(w_ld(2, b"tail"));
+        out.push(raw_case(&b));
+        let mut b = vec![0x12];
+        b.extend_from_slice(v);
+        out.push(raw_case(&b));
+        // as a key
+        let mut b = v.to_vec();
+        b.push(0x00);
+        out.push(raw_case(&b));
+    }
+    out.push(raw_case(&[0x8a, 0x80, 0x00, 0x01, 0x41])); // field 1 length-delimited via padded key
+    out.push(raw_case(&[0x00, 0x00]));
+    out.push(raw_case(&[0x02, 0x00]));
+    out.push(raw_case(&[0x0e, 0x00]));
+    out.push(raw_case(&[0x0f, 0x00]));
+    out.push(raw_case(&[0x80, 0x80, 0x80, 0x80, 0x10, 0x00])); // key = 2^32
+    out.push(raw_case(&[0xf8, 0xff, 0xff, 0xff, 0x0f, 0x00])); // max tag, varint
+    out.push(raw_case(&[0xfa, 0xff, 0xff, 0xff, 0x0f, 0x01, 0x00])); // max tag, len
+    // status code: negative, truncated to i32, repeated (last wins); message repeated
+    for c in [u64::MAX, 0xffff_ffff, 0x1_0000_0003, 0x8000_0000, 0x7fff_ffff, 17, 0] {
+        out.push(raw_case(&w_vi(1, c)));
+    }
+    let mut b = w_vi(1, 5);
+    b.extend(w_ld(2, b"first"));
+    b.extend(w_vi(1, 9));
+    b.extend(w_ld(2, b"second"));
+    out.push(raw_case(&b));
+    out.push(raw_case(&w_ld(1, b"code-as-bytes")));
+    out.push(raw_case(&w_vi(2, 5)));
+    out.push(raw_case(&w_vi(3, 5)));
+    out.push(raw_case(&[0x1a, 0x05, 0x0a]));
+    out.push(raw_case(&[0x1a, 0x01, 0x0a, 0x00])); // inner field overruns its parent
+    out.push(raw_case(&[0x1a, 0x03, 0x0a, 0x05, 0x41, 0x42, 0x43, 0x44, 0x45]));
+    out.push(raw_case(&[]));
+    // empty encodings of the constructive side
+    out.push("vec 0 x b0 0 0".to_string());
+    out.push("set 0 x b0 0 - - - - - - - - - -".to_string());
+    out.push("vec 0 x b0 0 1 RI -".to_string());
+    out.push(format!("vec 3 {} b0 0 2 RI {} 999999999 RN {} 999999999", hs("m"), u64::MAX, u64::MAX));
+    out
+}
+
+fn gen_mutations(rng: &mut Rng, per_base: usize, bases: usize, exhaustive_small: bool) -> Vec<String> {
+    let mut out = Vec::new();
+    for _ in 0..bases {
+        let base_case = if rng.chance(1, 2) { gen_vec_case(rng) } else { gen_set_case(rng) };
+        let bytes = match build_status(&base_case) {
+            Some(st) => st.details().to_vec(),
+            None => continue,
+        };
+        if bytes.is_empty() || bytes.len() > 3000 {
+            continue;
+        }
+        if exhaustive_small && bytes.len() <= 96 {
+            // every truncation point
+            for cut in 0..bytes.len() {
+                out.push(raw_case(&bytes[..cut]));
+            }
+        }
+        for _ in 0..per_base {
+            let mut b = bytes.clone();
+            match rng.below(9) {
+                0 => {
+                    let cut = rng.below(b.len() as u64) as usize;
+                    b.truncate(cut);
+                }
+                1 => {
+                    let i = rng.below(b.len() as u64) as usize;
+                    b[i] ^= 1 << rng.below(8);
+                }
+                2 => {
+                    let i = rng.below(b.len() as u64) as usize;
+                    b[i] = *rng.pick(&[0x00u8, 0x7f, 0x80, 0xff, 0x0a, 0x12, 0x1a, 0x08, 0x0b, 0x0c]);
+                }
+                3 => {
+                    let i = rng.below(b.len() as u64 + 1) as usize;
+                    let ins: Vec<u8> = match rng.below(6) {
+                        0 => w_vi(rng.range(1, 20) as u32, rng.next() >> rng.below(64)),
+                        1 => w_ld(rng.range(1, 20) as u32, &rng.bytes(3)),
+                        2 => nested_groups(rng.range(1, 3) as usize, rng.range(4, 20) as u32),
+                        3 => vec![0x25, 1, 2, 3, 4],
+                        4 => vec![0x21, 1, 2, 3, 4, 5, 6, 7, 8],
+                        _ => rng.bytes(2),
+                    };
+                    b.splice(i..i, ins);
+                }
+                4 => {
+                    let i = rng.below(b.len() as u64) as usize;
+                    b.remove(i);
+                }
+                5 => {
+                    // change the wire type of something that looks like a small key
+                    let i = rng.below(b.len() as u64) as usize;
+                    b[i] = (b[i] & 0xf8) | rng.below(8) as u8;
+                }
+                6 => {
+                    let i = rng.below(b.len() as u64) as usize;
+                    b[i] = b[i].wrapping_add(*rng.pick(&[1u8, 0xff, 2, 0x80]));
+                }
+                7 => {
+                    // duplicate a slice (repeated / last-wins fields)
+                    let i = rng.below(b.len() as u64) as usize;
+                    let j = (i + rng.range(1, 12) as usize).min(b.len());
+                    let sl = b[i..j].to_vec();
+                    b.splice(j..j, sl);
+                }
+                _ => {
+                    for _ in 0..3 {
+                        let i = rng.below(b.len() as u64) as usize;
+                        b[i] ^= 1 << rng.below(8);
+                    }
+                }
+            }
+            out.push(raw_case(&b));
+        }
+    }
+    out
+}
+
+fn gen_structured_raw(rng: &mut Rng, n: usize) -> Vec<String> {
+    // well-formed Status messages whose Any list is adversarial: foreign urls, payload of another
+    // kind, repeated kinds with some corrupt, durations outside the range
+    let mut out = Vec::new();
+    for _ in 0..n {
+        let k = rng.range(1, 5);
+        let mut anys = Vec::new();
+        for _ in 0..k {
+            let ui = rng.below(10) as usize;
+            let url = if rng.chance(1, 8) { "type.googleapis.com/other.Thing" } else { URLS[ui] };
+            let value: Vec<u8> = match rng.below(7) {
+                0 => {
+                    let kind = rng.below(10) as usize;
+                    let case = format!("vec 0 x b0 0 1 {}", gen_detail(kind, rng, false));
+                    // take the value bytes of the single Any out of a real encoding
+                    match build_status(&case).and_then(|s| pb::Status::decode(s.details()).ok()) {
+                        Some(p) if !p.details.is_empty() => p.details[0].value.clone(),
+                        _ => vec![],
+                    }
+                }
+                1 => {
+                    let s = rng.next() >> rng.below(64);
+                    let n = match rng.below(3) {
+                        0 => rng.below(2_000_000_001),
+                        1 => (-(rng.below(2_000_000_001) as i64)) as u64,
+                        _ => rng.next(),
+                    };
+                    let s = if rng.chance(1, 2) { s } else { (-(s as i64 >> 1)) as u64 };
+                    w_ld(1, &duration_msg(s, n))
+                }
+                2 => {
+                    let n = rng.below(6) as usize;
+                    rng.bytes(n)
+                }
+                3 => w_ld(rng.range(1, 5) as u32, &w_ld(rng.range(1, 4) as u32, gen_string(rng).as_bytes())),
+                4 => w_ld(rng.range(1, 5) as u32, gen_string(rng).as_bytes()),
+                5 => {
+                    let mut v = Vec::new();
+                    for _ in 0..rng.range(1, 4) {
+                        let mut e = Vec::new();
+                        if rng.chance(3, 4) {
+                            e.extend(w_ld(1, rng.pick(&["k", "", "j", "é"]).as_bytes()));
+                        }
+                        if rng.chance(3, 4) {
+                            e.extend(w_ld(2, gen_string(rng).as_bytes()));
+                        }
+                        v.extend(w_ld(3, &e));
+                    }
+                    v
+                }
+                _ => vec![],
+            };
+            anys.push(w_any(url, &value));
+        }
+        let code = *rng.pick(&[0u64, 3, 16, 17, u64::MAX]);
+        out.push(raw_case(&w_status(code, gen_string(rng).as_bytes(), &anys)));
+    }
+    out
+}
+
+pub fn generate(tier: &str, rng: &mut Rng) -> Vec<String> {
+    let thorough = tier == "thorough";
+    let mut out = corpus();
+    // structured: every kind alone, with edge values
+    for k in 0..10 {
+        for _ in 0..(if thorough { 200 } else { 25 }) {
+            out.push(format!("{} 1 {}", gen_head("vec", rng), gen_detail(k, rng, false)));
+        }
+    }
+    for s in SEC_EDGES {
+        for n in NANO_EDGES {
+            out.push(format!("vec 14 x b0 0 2 RI {} {} RN {} {}", s, n, s, n));
+            out.push(format!("set 14 x b0 0 RN {} {} - - - - - - - - -", s, n));
+        }
+    }
+    let nv = if thorough { 60000 } else { 2500 };
+    for _ in 0..nv {
+        out.push(gen_vec_case(rng));
+    }
+    let ns = if thorough { 30000 } else { 1200 };
+    for _ in 0..ns {
+        out.push(gen_set_case(rng));
+    }
+    // malformed
+    out.extend(gen_structured_raw(rng, if thorough { 40000 } else { 1500 }));
+    out.extend(gen_mutations(rng, if thorough { 40 } else { 12 }, if thorough { 3000 } else { 150 }, true));
+    let nr = if thorough { 20000 } else { 800 };
+    for _ in 0..nr {
+        let n = rng.below(24) as usize;
+        let b: Vec<u8> = (0..n)
+            .map(|_| {
+                if rng.chance(1, 2) {
+                    *rng.pick(&[0x08u8, 0x0a, 0x12, 0x1a, 0x00, 0x01, 0x02, 0x03, 0x80, 0xff, 0x0b, 0x0c, 0x41])
+                } else {
+                    rng.next() as u8
+                }
+            })
+            .collect();
+        out.push(raw_case(&b));
+    }
+    out
 }
